@@ -2,6 +2,7 @@
 // prints one canonical result line per case.  See /verif/DESIGN.md.
 mod canon;
 mod ops_core;
+mod ops_script;
 
 use std::io::{BufRead, Write};
 
